@@ -266,6 +266,37 @@ class Ctx:
         self.findings.append(Finding(self.pid, prop_key, what, cfg, pred, detail))
         return False
 
+    def solve_nonzero(self, S, run, label, num, extra=(), cfg=None, key=None, pred=None, detail=None):
+        """not-identically-zero(t): existential query, expected sat. A witness is first looked for on a line through the
+        assignment space (concrete bits/values from the run, small distinct integers for everything else): that makes the
+        query a ground evaluation; only if that particular point is a root is the unconstrained query posed."""
+        T = run.T
+        seen, stack, vs = set(), [num], []
+        while stack:
+            t = stack.pop()
+            if t in seen:
+                continue
+            seen.add(t)
+            k = T.kind[t]
+            if k[0] == 'v':
+                vs.append(k[1])
+            elif k[0] != 'c':
+                stack.extend(k[1:])
+        kinds = {('x_' + v['name']): v for v in run.core['vars']}
+        assign = []
+        for i, v in enumerate(sorted(vs)):
+            info = kinds.get(v)
+            if info is not None and info['kind'] in ('bit', 'value', 'promise'):
+                assign.append('(= %s %s.0)' % (v, info['shadow']))
+            else:
+                assign.append('(= %s %d.0)' % (v, 2 + 3 * i))
+        side = list(extra)
+        ans, dt, _ = S.check(assign + side + ['(not (= t%d 0.0))' % num])
+        if ans == 'sat':
+            self.D.record('not-identically-zero', label, 'sat', dt, 'sat', '\n'.join('(assert %s)' % a for a in assign[:6] + ['...', '(not (= t%d 0.0))' % num]))
+            return True
+        return self.solve(S, 'not-identically-zero', label, side + ['(not (= t%d 0.0))' % num], expect='sat', cfg=cfg, key=key, pred=pred, detail=detail)
+
     def solve(self, S, kind, label, assertions, expect='unsat', cfg=None, key=None, pred=None, detail=None):
         """pose one obligation; on the wrong definite answer register a finding; on unknown/error register inconclusive"""
         ans, dt, _ = S.check(assertions)
